@@ -26,6 +26,7 @@ def check(ctx: Ctx, col: Collector, tier: str) -> None:
              "specialisation of _create_result_string over result-list shapes; _parse_results paths", floor=7)
     col.spec("C07.TUPLE-SPLIT", "annotated tuple: one result per element in order; otherwise exactly one result",
              "abstract interpretation of _parse_results", floor=3)
+    col.spec("C07.COROUTINE", "the results of an `async def` mirror its annotation, not the Coroutine type mypy wraps around it", "library fact read from mypy's semanal.py + use of is_coroutine in _parse_results", floor=1)
     col.spec("C07.RESULT-NAMES", "results take the docstring's names, otherwise result_1, result_2, ... in order",
              "provenance of name=/id= at every Result(...) construction site", floor=6)
     col.spec("C07.NO-RESULT", "no annotation and nothing inferable -> no results", "path analysis of _parse_results", floor=1)
@@ -358,6 +359,18 @@ def check(ctx: Ctx, col: Collector, tier: str) -> None:
                     col.bad("C07.RESULT-NAMES", key, repo.loc(VISITOR, n), "; ".join(probs), f"{fi.qualname}: {probs[0]}")
                 else:
                     col.ok("C07.RESULT-NAMES", key, repo.loc(VISITOR, n), "name = docstring name or next(generator); id ends with it")
+    # `async def f() -> T`: mypy replaces the function's return type by typing.Coroutine[Any, Any, T] (read from the installed semanal.py);
+    # the results have to mirror the annotation T
+    from ..core.libmodel import lib_function
+    wraps = any(isinstance(x, ast.Constant) and x.value == "typing.Coroutine" for x in ast.walk(lib_function("mypy/semanal.py", "SemanticAnalyzer.analyze_func_def")))
+    if not wraps:
+        raise AnalysisError("mypy's analyze_func_def no longer wraps coroutine return types in typing.Coroutine; re-triage C07.COROUTINE")
+    src_pr = ast.unparse(pfi.node)
+    unwraps = "is_coroutine" in src_pr or "typing.Coroutine" in src_pr or "Coroutine" in src_pr
+    key = f"{VISITOR}::MyPyAstVisitor._parse_results::coroutine-return-type"
+    (col.ok if unwraps else col.bad)("C07.COROUTINE", key, repo.loc(VISITOR, pfi.node), "the coroutine wrapper mypy puts around the return type of an `async def` is taken off" if unwraps else "node.type.ret_type is translated as it is",
+                                     *([] if unwraps else ["for `async def` mypy's function type has the return type typing.Coroutine[Any, Any, T]; _parse_results translates that instead of the annotation: "
+                                                           "`async def f() -> list[int]` gets the result `Coroutine<Any, Any, List<Int>>` and `async def g() -> None` gets a result at all"]))
     # when docstring entries are matched to results by their type, an entry names at most one result (two results of one type would otherwise
     # share a name and an id)
     searches = []
